@@ -306,34 +306,11 @@ def _table_names(prog):
     return out
 
 
-def f_sqlite_date_to_datetime_compared(prog, idxs, ctx):
-    """A Date -> Datetime cast whose result is compared / ordered inside SQL."""
-    CMP = {"eq", "ne", "lt", "le", "gt", "ge", "hmax", "hmin", "is_in", "clip"}
-    for i in idxs:
-        for n in walk(prog["steps"][i]):
-            if n.get("k") == "fn" and n["op"] in CMP:
-                for a in n["a"]:
-                    if any(m.get("k") == "cast" and m.get("to") == "Datetime" for m in walk(a)):
-                        return True
-    return False
-
-
 def f_literal_with_pyformat_placeholder(prog, idxs, ctx):
     for i in idxs:
         for n in walk(prog["steps"][i]):
             if n.get("k") == "lit" and isinstance(n.get("v"), str) and re.search(r"%\(\w*\)s", n["v"]):
                 return True
-    return False
-
-
-def f_sqlite_case_of_temporal_literals(prog, idxs, ctx):
-    """A case expression (when/then or map) all of whose branch values are date / datetime literals."""
-    for i in idxs:
-        for n in walk(prog["steps"][i]):
-            if n.get("k") == "case":
-                vals = [v for _c, v in n["cases"]] + ([n["default"]] if n.get("default") is not None else [])
-                if vals and all(v.get("k") == "lit" and (v.get("ty") in ("date", "datetime") or v.get("v") is None) for v in vals) and any(v.get("ty") for v in vals):
-                    return True
     return False
 
 
@@ -354,9 +331,7 @@ def f_null_typed_expression(prog, idxs, ctx):
 
 FEATURES = {
     "null_typed_expression": f_null_typed_expression,
-    "sqlite_case_of_temporal_literals": f_sqlite_case_of_temporal_literals,
     "literal_with_pyformat_placeholder": f_literal_with_pyformat_placeholder,
-    "sqlite_date_to_datetime_compared": f_sqlite_date_to_datetime_compared,
     "group_by_constant_column": f_group_by_constant_column,
     "agg_or_window_over_constant": f_agg_or_window_over_constant,
     "ungrouped_summarize_aggregates_dropped": f_ungrouped_summarize_aggregates_dropped,
